@@ -103,6 +103,9 @@ def scan_spec(f):
             raise AnalysisBroken('C07: returns of %s not recognised' % f.name)
         g = Norm(f).facts([(c, t) for c, t in guard_facts(f, hit[0]) if f.inside(c, body)])
         keys = [a for a in g if a[0] == 'eq' and '_history[%s]' % v in a[1:]]
+        if not keys and [a for a in g if a[0] == 'ne' and '_history[%s]' % v in a[1:]]:
+            # the entry is compared with the key, but a DIFFERENT entry counts as an occurrence
+            return {'first': first, 'last': last, 'step': step, 'key': 'entries that differ from the key', 'needed': None}
         if len(keys) != 1:
             raise AnalysisBroken('C07: key comparison of %s not recognised (%s)' % (f.name, sorted(map(str, g))))
         key = [x for x in keys[0][1:] if x != '_history[%s]' % v][0]
@@ -119,6 +122,8 @@ def scan_spec(f):
                       x.get('op') in ('++', '--', '+=', '-=', '=') and cn_(f, kids(x)[0]) == cvn]
             if start is not None and len(others) == 1:
                 needed = rest[0][2] - start + 1
+        elif len(rest) == 1 and rest[0][0] == 'ne' and isinstance(rest[0][2], int) and str(rest[0][1]).startswith('++('):
+            needed = 'any count other than %d' % rest[0][2]
         if needed is None:
             raise AnalysisBroken('C07: occurrence counting of %s not recognised (%s)' % (f.name, sorted(map(str, rest))))
         return {'first': first, 'last': last, 'step': step, 'key': key, 'needed': needed}
